@@ -310,6 +310,13 @@ NEEDS.update({
  "R10m4A": ("C17", "chain_z returns early when the accumulator is the identity after the link that computes 3P", "a chain input of order 3, e.g. (0, 2) on E(Fq): clear_h returns the point itself instead of the identity"),
 })
 SRC_OVERRIDE.update({n: "/tmp/mut10/m%s/_out/A" % n[4] for n in NEEDS if n.startswith("R10")})
+# round 11 (same session, last minutes): three more, the agents being told the round-10 idea for their property
+NEEDS.update({
+ "R11m1A": ("C13", "expand_message_xmd short-message path assembling msg || l_i_b || 0 in a 64-byte stack buffer, guarded by n + 2 <= 64 instead of n + 3 <= 64", "a message of exactly 62 bytes: the trailing zero octet of the b_0 input is dropped; every XMD-based value differs"),
+ "R11m2A": ("C17", "G2 clear_h 'cheap normalisation' when the input's Z lies in Fq (z.c1 == 0, Z not 0 or 1): y.c1 scaled by z^-2 instead of z^-3", "a Jacobian representative whose Z is a base-field element other than 0, 1, e.g. (9X, 27Y, 3)"),
+ "R11m3A": ("C03", "G2Affine::perform_pairing (behind G2Affine::pairing_with) returns Fq12::zero() when the G2 operand is the identity", "Q = identity and the call made from the G2 side (q.pairing_with(&p)); Engine::pairing and p.pairing_with(&q) unchanged"),
+})
+SRC_OVERRIDE.update({n: "/tmp/mut11/m%s/_out/A" % n[4] for n in NEEDS if n.startswith("R11")})
 REJECT = {
  "R9p2A": "only the coordinate LABEL inside CoordinateDecodingError changes; the category (coordinate range) and its position in the validation order are unchanged, which is all C04 states. A behaviour-preserving control (BENb: 'another order of the range checks inside the coordinate stage') makes the same change and must stay silent.",
  "R9p2C": "the triggering points exist only outside the order-r subgroup (the author says so): outside C05's domain, like C05A.",
@@ -369,6 +376,8 @@ def main():
         if name in REJECT:
             meta["kept"] = False
             meta["rejected_because"] = REJECT[name]
+        if name.startswith("R11"):
+            meta["property_attacked"] = {"1": "C06", "2": "C17", "3": "C03"}[name[4]]
         if name.startswith("R10"):
             meta["property_attacked"] = {"0": "C05", "1": "C06", "2": "C07", "3": "C08", "4": "C17", "5": "C03", "6": "C15", "7": "C18", "8": "C12", "9": "C16"}[name[4]]
         if name == "R10m0A":
